@@ -6,7 +6,7 @@
 import EasyNet.Model.Spec
 namespace EasyNet
 
-structure SpecLaws (spec : Bytes → SRes) : Prop where
+structure SpecLaws (spec : Bytes → SRes) (ok : Bytes → Prop := fun _ => True) : Prop where
   /-- every delivered frame / size error consumes at least one byte -/
   progress_done : ∀ b d r, spec b = .done d r → r.length < b.length
   progress_fail : ∀ b r, spec b = .fail r → r.length < b.length
@@ -14,19 +14,30 @@ structure SpecLaws (spec : Bytes → SRes) : Prop where
   done_append : ∀ b x d r, spec b = .done d r → spec (b ++ x) = .done d (r ++ x)
   /-- a prefix of incomplete, acceptable data is incomplete and acceptable -/
   need_prefix : ∀ b x, spec (b ++ x) = .need → spec b = .need
-  /-- a prefix of data that starts with an acceptable frame is never rejected for its size -/
-  done_prefix : ∀ b x d r, spec (b ++ x) = .done d r → ∀ r', spec b ≠ .fail r'
+  /-- a prefix of data that starts with an acceptable frame (`ok d`: safely within the limit) is never rejected
+      for its size -/
+  done_prefix : ∀ b x d r, spec (b ++ x) = .done d r → ok d → ∀ r', spec b ≠ .fail r'
 
 /-- decode everything that is complete in `b` (adequate fuel) -/
 def decodeW (spec : Bytes → SRes) (b : Bytes) : Bytes × List Item := refDrain spec (b.length + 1) b
 
 def NoLimit (items : List Item) : Prop := ∀ it ∈ items, it ≠ Item.limit
 
+/-- no size error, and every delivered frame satisfies `ok` -/
+def AllOk (ok : Bytes → Prop) (items : List Item) : Prop :=
+  ∀ it ∈ items, match it with | .frame d => ok d | .limit => False
+
+theorem AllOk_of_NoLimit (items : List Item) (h : NoLimit items) : AllOk (fun _ => True) items := by
+  intro it hit
+  cases it with
+  | frame d => trivial
+  | limit => exact h _ hit rfl
+
 instance (items : List Item) : Decidable (NoLimit items) := by unfold NoLimit; infer_instance
 
-variable {spec : Bytes → SRes}
+variable {spec : Bytes → SRes} {ok : Bytes → Prop}
 
-theorem refDrain_fuel_aux (L : SpecLaws spec) (n : Nat) :
+theorem refDrain_fuel_aux (L : SpecLaws spec ok) (n : Nat) :
     ∀ (b : Bytes) (f1 f2 : Nat), b.length ≤ n → b.length + 1 ≤ f1 → b.length + 1 ≤ f2 →
       refDrain spec f1 b = refDrain spec f2 b := by
   induction n with
@@ -61,11 +72,11 @@ theorem refDrain_fuel_aux (L : SpecLaws spec) (n : Nat) :
             simp only
             rw [ih r f1 f2 (by omega) (by omega) (by omega)]
 
-theorem refDrain_fuel (L : SpecLaws spec) (fuel : Nat) (b : Bytes) (h : b.length + 1 ≤ fuel) :
+theorem refDrain_fuel (L : SpecLaws spec ok) (fuel : Nat) (b : Bytes) (h : b.length + 1 ≤ fuel) :
     refDrain spec fuel b = refDrain spec (b.length + 1) b :=
   refDrain_fuel_aux L b.length b fuel (b.length + 1) (Nat.le_refl _) h (Nat.le_refl _)
 
-theorem decodeW_unfold (L : SpecLaws spec) (b : Bytes) :
+theorem decodeW_unfold (L : SpecLaws spec ok) (b : Bytes) :
     decodeW spec b =
       if b.isEmpty then ([], [])
       else match spec b with
@@ -88,7 +99,7 @@ theorem decodeW_unfold (L : SpecLaws spec) (b : Bytes) :
       simp only
       rw [refDrain_fuel L b.length r (by omega)]
 
-theorem refRecv_eq_decodeW (L : SpecLaws spec) (h c : Bytes) : refRecv spec h c = decodeW spec (h ++ c) := by
+theorem refRecv_eq_decodeW (L : SpecLaws spec ok) (h c : Bytes) : refRecv spec h c = decodeW spec (h ++ c) := by
   rw [decodeW_unfold L]
   unfold refRecv
   by_cases hb : (h ++ c).isEmpty
@@ -97,7 +108,7 @@ theorem refRecv_eq_decodeW (L : SpecLaws spec) (h c : Bytes) : refRecv spec h c 
     cases hs : spec (h ++ c) <;> rfl
 
 /-- what `decodeW` retains is empty or incomplete-and-acceptable -/
-theorem decodeW_held (L : SpecLaws spec) (b : Bytes) :
+theorem decodeW_held (L : SpecLaws spec ok) (b : Bytes) :
     (decodeW spec b).1 = [] ∨ spec (decodeW spec b).1 = .need := by
   suffices H : ∀ n (b : Bytes), b.length ≤ n → ((decodeW spec b).1 = [] ∨ spec (decodeW spec b).1 = .need) from
     H b.length b (Nat.le_refl _)
@@ -124,10 +135,10 @@ theorem decodeW_held (L : SpecLaws spec) (b : Bytes) :
         exact ih r (by omega)
 
 /-- decoding is compositional along any cut of a stream that decodes without size error -/
-theorem decodeW_append (L : SpecLaws spec) (b y : Bytes) (hno : NoLimit (decodeW spec (b ++ y)).2) :
+theorem decodeW_append (L : SpecLaws spec ok) (b y : Bytes) (hno : AllOk ok (decodeW spec (b ++ y)).2) :
     decodeW spec (b ++ y) =
       ((decodeW spec ((decodeW spec b).1 ++ y)).1, (decodeW spec b).2 ++ (decodeW spec ((decodeW spec b).1 ++ y)).2) := by
-  suffices H : ∀ n (b : Bytes), b.length ≤ n → NoLimit (decodeW spec (b ++ y)).2 → decodeW spec (b ++ y) =
+  suffices H : ∀ n (b : Bytes), b.length ≤ n → AllOk ok (decodeW spec (b ++ y)).2 → decodeW spec (b ++ y) =
       ((decodeW spec ((decodeW spec b).1 ++ y)).1, (decodeW spec b).2 ++ (decodeW spec ((decodeW spec b).1 ++ y)).2) from
     H b.length b (Nat.le_refl _) hno
   clear hno
@@ -159,7 +170,7 @@ theorem decodeW_append (L : SpecLaws spec) (b y : Bytes) (hno : NoLimit (decodeW
           | cons x xs => simp
         have hunf := decodeW_unfold L (b ++ y)
         simp only [hby, Bool.false_eq_true, if_false, hs'] at hunf
-        have hno' : NoLimit (decodeW spec (r ++ y)).2 := by
+        have hno' : AllOk ok (decodeW spec (r ++ y)).2 := by
           intro it hit
           apply hno
           rw [hunf]; simp [hit]
@@ -177,15 +188,19 @@ theorem decodeW_append (L : SpecLaws spec) (b y : Bytes) (hno : NoLimit (decodeW
         simp only [hby, Bool.false_eq_true, if_false] at hunf
         cases hs' : spec (b ++ y) with
         | need => have := L.need_prefix b y hs'; rw [hs] at this; cases this
-        | done d' r' => exact L.done_prefix b y d' r' hs' r hs
+        | done d' r' =>
+          rw [hs'] at hunf
+          have hok : ok d' := by
+            have := hno (Item.frame d') (by rw [hunf]; simp)
+            exact this
+          exact L.done_prefix b y d' r' hs' hok r hs
         | fail r' =>
           rw [hs'] at hunf
-          apply hno Item.limit _ rfl
-          rw [hunf]; simp
+          exact hno Item.limit (by rw [hunf]; simp)
 
 /-- **Chunking independence** of the reference decoder. -/
-theorem refRun_chunk_independent (L : SpecLaws spec) (cs : List Bytes) (h : Bytes)
-    (hheld : h = [] ∨ spec h = .need) (hno : NoLimit (decodeW spec (h ++ cs.flatten)).2) :
+theorem refRun_chunk_independent (L : SpecLaws spec ok) (cs : List Bytes) (h : Bytes)
+    (hheld : h = [] ∨ spec h = .need) (hno : AllOk ok (decodeW spec (h ++ cs.flatten)).2) :
     refRun spec h cs = decodeW spec (h ++ cs.flatten) := by
   induction cs generalizing h with
   | nil =>
@@ -201,7 +216,7 @@ theorem refRun_chunk_independent (L : SpecLaws spec) (cs : List Bytes) (h : Byte
     simp only [refRun, List.flatten_cons]
     rw [refRecv_eq_decodeW L]
     have hcomp := decodeW_append L (h ++ c) cs.flatten (by simpa [List.append_assoc] using hno)
-    have hno2 : NoLimit (decodeW spec ((decodeW spec (h ++ c)).1 ++ cs.flatten)).2 := by
+    have hno2 : AllOk ok (decodeW spec ((decodeW spec (h ++ c)).1 ++ cs.flatten)).2 := by
       intro it hit
       apply hno
       rw [List.flatten_cons, ← List.append_assoc, hcomp]
